@@ -63,7 +63,10 @@ class G:
         r = self.rng.random()
         if r < 0.75:
             return {}
-        return self.rng.choice([{'class': 'cls'}, {'class': 'a b'}, {'status': 'editorial'}, {'class': 'c', 'refersTo': '#x'}])
+        # 'xclass' is the part of the class list written as an explicit {class ...} pair; it comes first in the result
+        return self.rng.choice([{'class': 'cls'}, {'class': 'a b'}, {'status': 'editorial'}, {'class': 'c', 'refersTo': '#x'},
+                                {'xclass': 'column-wide', 'class': 'col'}, {'xclass': 'foo bar', 'class': 'foo'}, {'xclass': 'z'},
+                                {'xclass': 'numeric right', 'class': 'num a', 'refersTo': '#x'}])
 
     # ---- blocks
     def para(self, allow_fn=True):
@@ -200,6 +203,8 @@ def r_attrs(a):
     out = ''
     if 'class' in a:
         out += ''.join('.' + c for c in a.pop('class').split())
+    if 'xclass' in a:
+        a = {'class': a.pop('xclass'), **a}
     if a:
         out += '{' + '|'.join(f'{k} {v}' for k, v in a.items()) + '}'
     return out
@@ -413,7 +418,12 @@ def E(tag, attrs, kids):
                 out.append(k)
         else:
             out.append(k)
-    return [tag, dict(attrs), out]
+    attrs = dict(attrs)
+    if 'xclass' in attrs:
+        # README: dotted classes are added to an explicit class attribute
+        x = attrs.pop('xclass')
+        attrs['class'] = x + (' ' + attrs['class'] if attrs.get('class') else '')
+    return [tag, attrs, out]
 
 
 def x_inl(pieces):
